@@ -28,6 +28,7 @@ import quansino.mc  # noqa: F401  (first: import-order defect C08 #15 on unfixed
 
 import copy
 import importlib
+import os
 import inspect
 import pkgutil
 import sys
@@ -48,7 +49,7 @@ from quansino.protocols import Criteria, Integrator, Move, Operation
 from quansino.utils.moves import MoveStorage
 
 VERIF = Path(__file__).resolve().parent.parent
-OUT = VERIF / "lean" / "QGen" / "Classes.lean"
+OUT = Path(os.environ.get("VERIF_LEAN_DIR", VERIF / "lean")) / "QGen" / "Classes.lean"
 
 # ---------------------------------------------------------------------------------- the exclusion rule
 
